@@ -205,7 +205,9 @@ def genotype(
         )
     if kind not in ["vcf", "pscan"]:
         avg_cov = sample.coverage.average_coverage()
-        if profile.cn_region and avg_cov < profile.min_avg_coverage:
+        # The guard must not depend on the copy-number neutral region: it is also
+        # needed when the gene structure is provided by the user (--cn).
+        if avg_cov < profile.min_avg_coverage or not sample.coverage.has_gene_reads():
             if is_simple:
                 print(file=output_file)
             raise AldyException(
@@ -213,7 +215,7 @@ def genotype(
                 + f"skipping gene {gene.name}. "
                 + f"Please ensure that {gene.name} is present in the input SAM/BAM."
             )
-        elif profile.cn_region and avg_cov < 20:
+        elif avg_cov < 20:
             log.warn(
                 f"Average sample coverage is {avg_cov}. "
                 + "We recommend at least 20x coverage for the best results."
